@@ -578,6 +578,7 @@ def _rearrange_to_explicit_ode(y: np.ndarray, coeff_b: np.ndarray, fx: np.ndarra
     # Go through all rows except the last-element.
     for i, b in enumerate(coeff_b[:-1]):
         # array of size N: a_k(x_n) * (d^k y(x_n) / d x^k)
-        result -= b * y[i]
+        # (not in place: implicit IVP methods evaluate several columns of y at one point x)
+        result = result - b * y[i]
 
     return result / coeff_b[-1]
